@@ -270,6 +270,20 @@ def evaluate(plan, H):
             viol('bad-response/' + cls,
                  'valid indication %s got %s: %r' %
                  (ind, cls, (rec.get('raw') or b'')[:200]))
+    # deliveries are serial: one indication at a time, callbacks of one
+    # indication one after the other
+    open_d = None
+    for e in H['events']:
+        if e['k'] == 'deliver':
+            if open_d is not None:
+                viol('concurrent-delivery',
+                     'delivery of %s to callback %d started while delivery '
+                     'of %s to callback %d was still running' %
+                     (e['ind'], e['cb'], open_d[0], open_d[1]))
+                break
+            open_d = (e['ind'], e['cb'])
+        elif e['k'] == 'deliver_end':
+            open_d = None
     # per-sender order (at callback 0)
     order = {}
     acked = {r['ind'] for r in H['responses'] if r.get('cls') == 'ack'}
